@@ -198,7 +198,7 @@ Proof.
     eexists. intros f Hf. rewrite Hl by lia. reflexivity.
 Qed.
 
-(* =============================================== bbox_of_composite (recursion depth) *)
+(* =============================================== bbox_of_composite (work list, no visited set) *)
 Lemma all_some_tt {A} (f : A -> option unit) l :
   (forall x, In x l -> f x = Some tt) -> all_some f l = Some tt.
 Proof.
@@ -206,19 +206,28 @@ Proof.
   rewrite (H x (or_introl eq_refl)). apply IH. intros; apply H; auto.
 Qed.
 
-Lemma bbox_ranked G r : ranked G r -> forall d v, r v < d -> bbox d G v = Some tt.
+Lemma sumf_filter_le {A} (f : A -> nat) (p : A -> bool) l : sumf f (filter p l) <= sumf f l.
+Proof. induction l as [|x t IH]; simpl; auto. destruct (p x); simpl; lia. Qed.
+
+Lemma bbox_loop_terminates G w : weighted G w -> (forall v, 1 <= w v) ->
+  forall m todo, sumf w todo < m -> forall f, m <= f -> bbox_loop f G todo = Some tt.
 Proof.
-  intros R. induction d as [|d IH]; intros v H; [lia|].
-  simpl. apply all_some_tt. intros c Hc.
-  destruct (is_composite (get G c)); auto. apply IH. specialize (R v c Hc). lia.
+  intros W W1. induction m as [|m IH]; intros todo H f Hf; [lia|].
+  destruct f as [|f]; [lia|]. destruct todo as [|v t]; [reflexivity|].
+  simpl. apply IH; [|lia].
+  rewrite sumf_app, sumf_rev.
+  pose proof (sumf_filter_le w (fun c => is_composite (get G c)) (succs G v)).
+  specialize (W v). simpl in H. lia.
 Qed.
 
-(* the recursion is never deeper than the number of glyphs *)
+(* the work list of the repaired bbox_of_composite empties within walk_bound G pops *)
 Theorem bbox_terminates_on_acyclic G v : closed G -> acyclic G ->
-  forall d, length G < d -> bbox d G v = Some tt.
+  forall f, walk_bound G < f -> bbox f G v = Some tt.
 Proof.
-  intros C A d Hd. destruct (bounded_rank_exists G C A) as [r [R Rb]].
-  apply bbox_ranked with (r := r); auto. specialize (Rb v). lia.
+  intros C A f Hf. destruct (weight_exists G C A) as [w [W [Wb W1]]].
+  unfold bbox. apply bbox_loop_terminates with (w := w) (m := S (w v)); auto.
+  - simpl. lia.
+  - specialize (Wb v). lia.
 Qed.
 
 (* =============================================== update_composite_limits *)
@@ -352,8 +361,16 @@ Proof.
 Qed.
 
 (* =============================================== divergence on the 2-cycle *)
-(* bbox_of_composite: every recursion depth is exhausted (= the stack overflows) *)
+(* bbox_of_composite: the work list never empties (before the repair: every recursion depth
+   is exhausted = the stack overflows) *)
 Theorem bbox_diverges_on_two_cycle : forall d, bbox d two_cycle 0 = None /\ bbox d two_cycle 1 = None.
+Proof.
+  unfold bbox. induction d as [|d [IH0 IH1]]; [split; reflexivity|].
+  split; simpl; [exact IH1 | exact IH0].
+Qed.
+
+Theorem bbox_rec_diverges_on_two_cycle :
+  forall d, bbox_rec d two_cycle 0 = None /\ bbox_rec d two_cycle 1 = None.
 Proof.
   induction d as [|d [IH0 IH1]]; [split; reflexivity|].
   split; simpl; [rewrite IH1 | rewrite IH0]; reflexivity.
